@@ -31,6 +31,7 @@ C = dict(
         # two create requests in flight (Begin / Advance sections interleaved with other requests)
         dict(module="TaskBook", cfg="TaskBook_MCparq.cfg", tiers=["quick"], workers=8),
         dict(module="TaskBook", cfg="TaskBook_MCpar.cfg", tiers=["thorough"], workers=8),
+        dict(module="TaskBook", cfg="TaskBook_MCpar6.cfg", tiers=["thorough"], workers=8),
     ],
     plan_sources=[
         dict(name="shapes3", module="TaskBook", cfg="TaskBook_PlanShapes3.cfg", cap={"quick": 500}, workers=4, tiers=["quick"]),
@@ -40,9 +41,9 @@ C = dict(
              depth=9, params={"max_tasks": 3}),
         # requests in flight: every history of depth 3 (quick: a sample; the driver completes what is still in flight) /
         # depth 4 (thorough: a sample) with an overlap, and random deep ones
-        dict(name="par3", module="TaskBook", cfg="TaskBook_PlanPar3.cfg", cap={"quick": 400}, workers=4),
-        dict(name="par4", module="TaskBook", cfg="TaskBook_PlanPar.cfg", cap={"thorough": 12000}, workers=8, tiers=["thorough"]),
-        dict(name="simpar", module="TaskBook", cfg="TaskBook_PlanSimPar.cfg", simulate={"quick": 100, "thorough": 3000},
+        dict(name="par3", module="TaskBook", cfg="TaskBook_PlanPar3.cfg", cap={"quick": 300}, workers=4),
+        dict(name="par4", module="TaskBook", cfg="TaskBook_PlanPar.cfg", cap={"thorough": 8000}, workers=8, tiers=["thorough"]),
+        dict(name="simpar", module="TaskBook", cfg="TaskBook_PlanSimPar.cfg", simulate={"quick": 60, "thorough": 1200},
              depth=9, params={"max_tasks": 3}),
     ],
     directed="plans/C10.jsonl",
